@@ -66,6 +66,7 @@ type Incarnation struct {
 	CrashAt    int  // 1-based call index; 0 = never
 	CrashAfter bool // fence after applying call CrashAt instead of before
 	calls      int
+	CtxRefused int // operations refused because the caller's context had ended
 	Trace      []string
 	OnFence    func(k int)
 	closed     int
@@ -222,7 +223,22 @@ func (c *diskClient) apply(ops ...*storage.Operation) error {
 	return nil
 }
 
-func (c *diskClient) Get(_ context.Context, key string) ([]byte, error) {
+// ctxDone: the simulated storage honours its caller's context, as a storage extension doing real I/O does: an
+// operation issued with a context that has ended is not performed and returns the context's error.
+func (c *diskClient) ctxDone(ctx context.Context) error {
+	if err := ctx.Err(); err != nil {
+		c.inc.mu.Lock()
+		c.inc.CtxRefused++
+		c.inc.mu.Unlock()
+		return err
+	}
+	return nil
+}
+
+func (c *diskClient) Get(ctx context.Context, key string) ([]byte, error) {
+	if err := c.ctxDone(ctx); err != nil {
+		return nil, err
+	}
 	op := storage.GetOperation(key)
 	if err := c.apply(op); err != nil {
 		return nil, err
@@ -230,15 +246,24 @@ func (c *diskClient) Get(_ context.Context, key string) ([]byte, error) {
 	return op.Value, nil
 }
 
-func (c *diskClient) Set(_ context.Context, key string, value []byte) error {
+func (c *diskClient) Set(ctx context.Context, key string, value []byte) error {
+	if err := c.ctxDone(ctx); err != nil {
+		return err
+	}
 	return c.apply(storage.SetOperation(key, value))
 }
 
-func (c *diskClient) Delete(_ context.Context, key string) error {
+func (c *diskClient) Delete(ctx context.Context, key string) error {
+	if err := c.ctxDone(ctx); err != nil {
+		return err
+	}
 	return c.apply(storage.DeleteOperation(key))
 }
 
-func (c *diskClient) Batch(_ context.Context, ops ...*storage.Operation) error {
+func (c *diskClient) Batch(ctx context.Context, ops ...*storage.Operation) error {
+	if err := c.ctxDone(ctx); err != nil {
+		return err
+	}
 	return c.apply(ops...)
 }
 
